@@ -531,6 +531,20 @@ func (ec *evalCtx) callSpec(x *spec.Call) Val {
 		return Val{T: smt.SlArr(ec.scalar(ec.eval(x.Args[0]), x))}
 	case "mapdom", "mapval":
 		return ec.mapAccess(x)
+	case "panicked", "panicval":
+		name := x.Args[0].(*spec.StrLit).Val
+		k := x.Args[1].(*spec.IntLit).Val
+		key := name + "#" + k
+		if x.Fun == "panicked" {
+			if t, ok := fc.callPanicked[key]; ok {
+				return Val{T: smt.And(fc.callGuardOr(key), t)}
+			}
+			return Val{T: smt.False}
+		}
+		if t, ok := fc.callPanicVal[key]; ok {
+			return Val{T: t}
+		}
+		return Val{T: smt.IntLit(0)}
 	case "callres", "called", "callresb":
 		// callres("callee", k [, i]): (component i of) the result of the k-th call to callee on this path
 		name := x.Args[0].(*spec.StrLit).Val
@@ -962,4 +976,11 @@ func (ec *evalCtx) fieldLocations(e spec.Expr) (keys []string, ref *smt.Term, so
 		sorts = append(sorts, sortOfKind(kindOf(ft)))
 	}
 	return keys, ec.scalar(base, e), sorts, true
+}
+
+func (fc *FnCtx) callGuardOr(key string) *smt.Term {
+	if g, ok := fc.callGuard[key]; ok {
+		return g
+	}
+	return smt.True
 }
